@@ -220,7 +220,7 @@ fn stream_cases() -> Vec<Case> {
         for &bps in &[8u8, 12, 16, 20, 24] {
             for &(bs, full, tail) in &[(32u32, 2u8, 0u32), (33, 1, 32), (64, 2, 1), (100, 1, 99)] {
                 for &a in &[4u8, 10, 22] {
-                    v.push(Case { input: Input { ch, bps, rate: 48000, bs, full, tail, atoms: [a, a, a, a], rel: 0, delivery: 1, seed: 0 }, cfg: Cfg::default() });
+                    v.push(Case { input: Input { ch, bps, rate: 48000, bs, full: full.into(), tail, atoms: [a, a, a, a], rel: 0, delivery: 1, seed: 0 }, cfg: Cfg::default() });
                 }
             }
         }
@@ -239,7 +239,7 @@ fn check_stream(rep: &Report, local: &mut Local, case: &Case) {
             c.cfg.workers = 2;
             match subject::encode_bytes(&c, &samples, mode) {
                 Ok((_, b)) => outs.push((format!("{}/{}", mode.name(), if delivery == 1 { "ints" } else { "bytes" }), b)),
-                Err(e) => rep.violation(&format!("encode_fail|{}", e.class()), &format!("{}: {}", mode.name(), e.describe()), c.json(), c.weight()),
+                Err(e) => rep.violation_x(mode == Mode::Mt, &format!("encode_fail|{}", e.class()), &format!("{}: {}", mode.name(), e.describe()), c.json(), c.weight()),
             }
         }
     }
